@@ -39,15 +39,16 @@ Fixpoint ninstr_p (p : prog) : nat :=
   | PWhile c a r => (ninstr c + (1 + (ninstr_p a + (1 + ninstr_p r))))%nat
   end.
 
-Fixpoint wf_p (en : env) (p : prog) : Prop :=
+(* [wc]: what is asked of a while condition (LingoNestFacts.wcond_ok for plain while loops) *)
+Fixpoint wf_p (wc : node -> bool) (en : env) (p : prog) : Prop :=
   match p with
   | PNil => True
-  | PStmt s r => wf_s en s /\ wf_p en r
-  | PIf c a r => wf_e en c /\ a <> PNil /\ 3 + zlen (compile_p a) < 65536 /\ wf_p en a /\ wf_p en r
+  | PStmt s r => wf_s en s /\ wf_p wc en r
+  | PIf c a r => wf_e en c /\ a <> PNil /\ 3 + zlen (compile_p a) < 65536 /\ wf_p wc en a /\ wf_p wc en r
   | PIfE c a eb r => wf_e en c /\ a <> PNil /\ eb <> PNil /\ 3 + zlen (compile_p a) + 3 < 65536 /\ 3 + zlen (compile_p eb) < 65536 /\
-                     wf_p en a /\ wf_p en eb /\ wf_p en r
-  | PWhile c a r => wf_e en c /\ (forall pc, wcond_ok (reify_e en pc c) = true) /\ zlen (compile_e c) + 3 + zlen (compile_p a) < 256 /\
-                    wf_p en a /\ wf_p en r
+                     wf_p wc en a /\ wf_p wc en eb /\ wf_p wc en r
+  | PWhile c a r => wf_e en c /\ (forall pc, wc (reify_e en pc c) = true) /\ zlen (compile_e c) + 3 + zlen (compile_p a) < 256 /\
+                    wf_p wc en a /\ wf_p wc en r
   end.
 
 (* the statements the stack machine leaves, as positioned items, when the code of p starts at pc *)
